@@ -40,6 +40,7 @@ theorem jmp_cond_core (c : Cfg) (tgt : Tgt → Option Nat) (pc a b retAddr : Nat
     (hex : Interp.branch s off cond = .next s') :
     ∃ k σ', stepsN c k σ = some σ' ∧ Rel0 retAddr σ' s' ∧ topBytes σ' s' = topBytes σ s ∧
       σ'.log = σ.log ∧ σ'.misaligned = σ.misaligned ∧ s'.log = s.log ∧
+      s'.frames = s.frames ∧ CallersKept σ σ' s ∧
       ((s'.pc = pc + 1 ∧ σ'.rip = c.codeBase + b) ∨
        (∃ l, tgt (.pc (s'.pc : Int)) = some l ∧ σ'.rip = c.codeBase + l)) := by
   obtain ⟨n1, hd1, hchk2⟩ := checkSeq_i _ _ _ _ _ _ hchk
@@ -57,13 +58,14 @@ theorem jmp_cond_core (c : Cfg) (tgt : Tgt → Option Nat) (pc a b retAddr : Nat
     exact stepsN_add c 1 1 σ _ σ2 (stepsN_one c _ _ hs1) (stepsN_one c _ _ hs2)
   rcases jmp_branch_next s s' off cond pc hpc hex with ⟨hc, hs'⟩ | ⟨hc, hs', hpc'⟩
   · subst hs'
-    refine ⟨2, { σ with rip := c.codeBase + (a + n1) + n2, flags := some f }, hsteps _ ?_, rel0_congr _ _ _ _ hrel rfl rfl, rfl, rfl, rfl, rfl, Or.inl ⟨hpc, ?_⟩⟩
+    refine ⟨2, { σ with rip := c.codeBase + (a + n1) + n2, flags := some f }, hsteps _ ?_, rel0_congr _ _ _ _ hrel rfl rfl, rfl, rfl, rfl, rfl, rfl, callersKept_of_mem _ _ _ rfl, Or.inl ⟨hpc, ?_⟩⟩
     · simp only [exec, hcc, hc]; rfl
     · simp only [← hbe, Nat.add_assoc]
-  · refine ⟨2, { σ with rip := X86.relTarget (c.codeBase + (a + n1) + n2) rel, flags := some f }, hsteps _ ?_, ?_, ?_, rfl, rfl, ?_, Or.inr ⟨l, ?_, ?_⟩⟩
+  · refine ⟨2, { σ with rip := X86.relTarget (c.codeBase + (a + n1) + n2) rel, flags := some f }, hsteps _ ?_, ?_, ?_, rfl, rfl, ?_, ?_, callersKept_of_mem _ _ _ rfl, Or.inr ⟨l, ?_, ?_⟩⟩
     · simp only [exec, hcc, hc]; rfl
     · rw [hs']; exact rel0_pc _ _ _ _ (rel0_congr _ _ _ _ hrel rfl rfl)
     · rw [hs']; rfl
+    · rw [hs']
     · rw [hs']
     · rw [hpc']; exact htgt
     · show X86.relTarget (c.codeBase + (a + n1) + n2) rel = c.codeBase + l
@@ -138,6 +140,7 @@ theorem jmp_ja_core (c : Cfg) (tgt : Tgt → Option Nat) (pc a b retAddr : Nat) 
     (hex : Interp.branch s off true = .next s') :
     ∃ k σ', stepsN c k σ = some σ' ∧ Rel0 retAddr σ' s' ∧ topBytes σ' s' = topBytes σ s ∧
       σ'.log = σ.log ∧ σ'.misaligned = σ.misaligned ∧ s'.log = s.log ∧
+      s'.frames = s.frames ∧ CallersKept σ σ' s ∧
       ((s'.pc = pc + 1 ∧ σ'.rip = c.codeBase + b) ∨
        (∃ l, tgt (.pc (s'.pc : Int)) = some l ∧ σ'.rip = c.codeBase + l)) := by
   obtain ⟨n1, rel, l, hd1, htgt, hland, hchk2⟩ := checkSeq_jmp _ _ _ _ _ _ hchk
@@ -146,9 +149,10 @@ theorem jmp_ja_core (c : Cfg) (tgt : Tgt → Option Nat) (pc a b retAddr : Nat) 
   have hs1 := step_at c σ a n1 (.jmp rel) hrip hd1
   rcases jmp_branch_next s s' off true pc hpc hex with ⟨hc, _⟩ | ⟨_, hs', hpc'⟩
   · cases hc
-  · refine ⟨1, { σ with rip := X86.relTarget (c.codeBase + a + n1) rel }, stepsN_one c _ _ (by rw [hs1]; rfl), ?_, ?_, rfl, rfl, ?_, Or.inr ⟨l, ?_, ?_⟩⟩
+  · refine ⟨1, { σ with rip := X86.relTarget (c.codeBase + a + n1) rel }, stepsN_one c _ _ (by rw [hs1]; rfl), ?_, ?_, rfl, rfl, ?_, ?_, callersKept_of_mem _ _ _ rfl, Or.inr ⟨l, ?_, ?_⟩⟩
     · rw [hs']; exact rel0_pc _ _ _ _ (rel0_congr _ _ _ _ hrel rfl rfl)
     · rw [hs']; rfl
+    · rw [hs']
     · rw [hs']
     · rw [hpc']; exact htgt
     · show X86.relTarget (c.codeBase + a + n1) rel = c.codeBase + l
